@@ -37,13 +37,40 @@ def boundary_cases(ck, tier):
         c['want_share'] = c['want_budget'] = False
         out.append(c)
         k += 1
+  # the data object served an analysis over a longer window first; budget range on the short window
+  for j in range(6 if tier == 'quick' else 60):
+    c = search.gen_case(ck.seed * 11 + 500 + j, tier, max_geos=5)
+    c['par'] = dict(c['par'], n_pretest_max=12)
+    c['want_budget'] = True
+    c['budget_mode'] = 'hi-bites' if j % 2 else 'lo-bites'
+    c['history'] = 'longer-window-first'
+    out.append(c)
+  # group sizes whose ratio equals a bound in exact arithmetic but not in binary64 (1 + 2/3 < 5/3, 3/5 < 1/(1 + 2/3))
+  for j, (tr, cr) in enumerate([((5, 5), None), ((3, 3), (5, 5))] if tier == 'quick' else
+                               [((5, 5), None), ((3, 3), (5, 5)), ((5, 5), (3, 3)), ((3, 5), None)]):
+    c = search.gen_case(ck.seed * 13 + 900 + j, tier, max_geos=6)
+    rng = __import__('random').Random(ck.seed * 13 + 900 + j)
+    nd = len(c['rows'][0])
+    base = c['rows'][0]
+    c['rows'] = [[round((s * b / max(1.0, base[0]) * 50 + rng.gauss(0, 0.5 * s)) * 8) / 8 for b in base] for s in (1, 2, 3, 5, 8, 13, 21, 34)]
+    c['elig'] = {str(g + 1): 'ctx' for g in range(8)}
+    par = {'n_test': 3, 'iroas': 1.0, 'n_designs': 5, 'n_pretest_max': 90, 'geo_ratio_tolerance': 2.0 / 3.0, 'treatment_geos_range': tr}
+    if cr:
+      par['control_geos_range'] = cr
+    c['par'] = par
+    c['want_share'] = c['want_budget'] = False
+    c['history'] = None
+    c.pop('zero_sum_geo', None)
+    out.append(c)
   return out
 
 
 def run(tier):
   return searchfam.run_family('C02', tier, 'props/C02.v', COMPONENTS, oracle, 150, 3000,
                               RULE + '; plus a boundary grid (geo-ratio tolerance in {1/4,1/2,1,2,3} x size ranges that '
-                              'put group sizes exactly on a bound, n_designs=50 so all feasible designs are returned)',
+                              'put group sizes exactly on a bound, n_designs=50 so all feasible designs are returned), cases whose data object served a '
+                              'longer pretest window first (with a budget range), and 8-geo cases with geo_ratio_tolerance = 2/3 and 5:3 / 3:5 groups '
+                              '(ratios equal to a bound in exact arithmetic only)',
                               extra_cases=boundary_cases,
                               assumptions=['cases within 1e-9 (relative) of a float threshold are skipped and counted',
                                            'bit-level inclusivity of the geo-ratio bound is tested on the boundary grid, '
